@@ -28,7 +28,7 @@ pub mod builder {
         // ASSUMED contract of BlockBuilder::build (token/builder/block.rs): total
         #[verifier::external_body]
         pub fn build(self, symbols: crate::datalog::SymbolTable) -> (r: crate::token::Block)
-            ensures r.external_key is None
+            ensures r.external_key is None, r.symbols.public_keys.keys@.len() == 0
         { unimplemented!() }
     }
 }
@@ -57,7 +57,7 @@ pub mod datalog {
         fn clone(&self) -> (r: Self) ensures r == *self { unimplemented!() }
     }
     impl SymbolTable {
-        pub closed spec fn strings_view(self) -> Seq<String> { self.symbols@ }
+        pub open spec fn strings_view(self) -> Seq<String> { self.symbols@ }
         // ASSUMED contracts of the symbol table operations this unit calls (datalog/symbol.rs:
         // HashSet / iterator code). `from` refuses symbols of the default table; `extend` refuses
         // overlaps and appends; `is_disjoint` is exact.
@@ -86,6 +86,10 @@ pub mod datalog {
         //@end
         //@extract biscuit-auth/src/datalog/symbol.rs :: impl SymbolTable :: fn print_symbol_default
         //@end
+        //@extract biscuit-auth/src/datalog/symbol.rs :: impl SymbolTable :: fn insert
+        //@ external_body
+        //@ ensures interned: final(self).public_keys == old(self).public_keys && (final(self).strings_view() == old(self).strings_view() || exists|t: String| final(self).strings_view() == old(self).strings_view().push(t))
+        //@end
         //@extract biscuit-auth/src/datalog/symbol.rs :: impl SymbolTable :: fn is_disjoint
         //@ external_body
         //@ ensures exact: r == Self::seq_disjoint(self.strings_view(), other.strings_view())
@@ -110,7 +114,7 @@ pub mod token {
     use crate::tspec::*;
     pub use self::block::Block;
     pub use self::third_party::*;
-    broadcast use crate::error::qm_axioms;
+    broadcast use {crate::error::qm_axioms, crate::tspec::proto_of_tables, crate::format::schema::ax_block_wire_roundtrip, crate::verif_std::subrange_full};
 
     //@extract biscuit-auth/src/token/mod.rs :: const MIN_SCHEMA_VERSION
     //@end
@@ -175,6 +179,7 @@ pub mod token {
     }
 
     //@extract biscuit-auth/src/token/mod.rs :: fn default_symbol_table
+    //@ ensures empty: r.strings_view().len() == 0 && r.public_keys.keys@.len() == 0
     //@end
 
     //@extract biscuit-auth/src/token/mod.rs :: struct Biscuit
@@ -189,12 +194,18 @@ pub mod token {
         pub open spec fn rep(self) -> bool {
             self.blocks@.len() == self.container.blocks@.len()
         }
+        // C12: the in-memory tables are the ones a verifier reconstructs from the container
+        pub open spec fn inv(self) -> bool {
+            self.rep() && tables_upto(self.authority, self.blocks@, self.container.blocks@, self.blocks@.len() as int,
+                                      self.symbols.strings_view(), self.symbols.public_keys.keys@)
+        }
 
         //@extract biscuit-auth/src/token/mod.rs :: impl Biscuit :: fn to_vec
         //@end
         //@extract biscuit-auth/src/token/mod.rs :: impl Biscuit :: fn serialized_size
         //@end
         //@extract biscuit-auth/src/token/mod.rs :: impl Biscuit :: fn seal
+        //@ ensures inv: r is Ok && self.inv() ==> r->Ok_0.inv()
         //@ ensures sealed: self.container.proof is Seal ==> r is Err
         //@ ensures frame: r is Ok ==> r->Ok_0.root_key_id == self.root_key_id && r->Ok_0.authority == self.authority && r->Ok_0.blocks == self.blocks && r->Ok_0.symbols == self.symbols
         //@ ensures container: r is Ok ==> r->Ok_0.container.authority == self.container.authority && r->Ok_0.container.blocks@ == self.container.blocks@ && r->Ok_0.container.root_key_id == self.container.root_key_id && r->Ok_0.container.proof is Seal
@@ -257,18 +268,25 @@ pub mod token {
 
     impl Biscuit {
         //@extract biscuit-auth/src/token/mod.rs :: impl Biscuit :: fn new_with_key_pair
+        //@ requires empty: symbols.strings_view().len() == 0 && symbols.public_keys.keys@.len() == 0 && authority.symbols.public_keys.keys@.len() == 0
+        //@ ensures inv: r is Ok ==> r->Ok_0.inv()
+        //@ ghost before_tail :: proof { assert(symbols.strings_view() =~= authority.symbols@); assert(symbols.public_keys.keys@.len() == authority.public_keys@.len()); }
         //@ requires wf: next_keypair.wf()
         //@ ensures rep: r is Ok ==> r->Ok_0.rep()
         //@ ensures chain: r is Ok ==> chain_valid(r->Ok_0.container, kp_public(*root), false) && r->Ok_0.container.blocks@.len() == 0
         //@ ensures root_key_id: r is Ok ==> r->Ok_0.root_key_id == root_key_id && r->Ok_0.container.root_key_id == root_key_id
         //@end
         //@extract biscuit-auth/src/token/mod.rs :: impl Biscuit :: fn from_with_symbols
+        //@ requires empty: symbols.strings_view().len() == 0 && symbols.public_keys.keys@.len() == 0
+        //@ ensures inv: r is Ok ==> r->Ok_0.inv()
         //@ ensures rep: r is Ok ==> r->Ok_0.rep()
         //@ ensures chain: r is Ok ==> key_provider.choose_spec(r->Ok_0.container.root_key_id) is Ok && chain_valid(r->Ok_0.container, key_provider.choose_spec(r->Ok_0.container.root_key_id)->Ok_0, false)
         //@ ensures wire: r is Ok ==> schema::wire_decode(slice@) is Some && wire_rel(schema::wire_decode(slice@)->Some_0, r->Ok_0.container, true)
         //@ ensures root_key_id: r is Ok ==> r->Ok_0.root_key_id == r->Ok_0.container.root_key_id
         //@end
         //@extract biscuit-auth/src/token/mod.rs :: impl Biscuit :: fn from_serialized_container
+        //@ requires empty: symbols.strings_view().len() == 0 && symbols.public_keys.keys@.len() == 0
+        //@ ensures inv: r is Ok ==> r->Ok_0.inv()
         //@ ensures rep: r is Ok ==> r->Ok_0.rep()
         //@ ensures container: r is Ok ==> r->Ok_0.container == container && r->Ok_0.root_key_id == container.root_key_id
         //@end
@@ -276,6 +294,8 @@ pub mod token {
         //@ ensures same: *r == self.container
         //@end
         //@extract biscuit-auth/src/token/mod.rs :: impl Biscuit :: fn append_with_keypair
+        //@ ensures inv: r is Ok && self.inv() ==> r->Ok_0.inv()
+        //@ ghost before_tail :: proof { if self.inv() { lemma_tables_push(self.authority, self.blocks@, self.container.blocks@, deser, last_block(container), container.blocks@, self.symbols.strings_view(), self.symbols.public_keys.keys@, block.symbols.strings_view(), block.public_keys.keys@); assert(block.symbols.public_keys.keys@ =~= Seq::<PublicKey>::empty()); assert(symbols.public_keys.keys@ =~= self.symbols.public_keys.keys@ + block.public_keys.keys@); } }
         //@ requires rep: self.rep()
         //@ requires wf: keypair.wf()
         //@ ensures sealed: self.container.proof is Seal ==> r is Err
@@ -288,6 +308,8 @@ pub mod token {
         //@ ensures prev: r is Ok ==> r->Ok_0.previous_signature@ == last_block(self.container).signature.0@
         //@end
         //@extract biscuit-auth/src/token/mod.rs :: impl Biscuit :: fn append_third_party_with_keypair
+        //@ ensures inv: r is Ok && self.inv() ==> r->Ok_0.inv()
+        //@ ghost before_tail :: proof { if self.inv() { lemma_tables_push(self.authority, self.blocks@, self.container.blocks@, block, last_block(container), container.blocks@, self.symbols.strings_view(), self.symbols.public_keys.keys@, Seq::<String>::empty(), Seq::<PublicKey>::empty()); assert(self.symbols.strings_view() + Seq::<String>::empty() =~= self.symbols.strings_view()); assert(self.symbols.public_keys.keys@ + Seq::<PublicKey>::empty() =~= self.symbols.public_keys.keys@); } }
         //@ requires rep: self.rep()
         //@ requires wf: next_keypair.wf()
         //@ ensures sealed: self.container.proof is Seal ==> r is Err
@@ -320,7 +342,7 @@ pub mod token {
         use crate::token::RootKeyProvider;
         use crate::spec::*;
         use crate::tspec::*;
-        broadcast use crate::error::qm_axioms;
+        broadcast use {crate::error::qm_axioms, crate::tspec::proto_of_tables, crate::format::schema::ax_block_wire_roundtrip, crate::verif_std::subrange_full};
 
         //@extract biscuit-auth/src/token/unverified.rs :: struct UnverifiedBiscuit
         //@end
@@ -330,12 +352,18 @@ pub mod token {
         }
         impl UnverifiedBiscuit {
             pub open spec fn rep(self) -> bool { self.blocks@.len() == self.container.blocks@.len() }
+            pub open spec fn inv(self) -> bool {
+                self.rep() && tables_upto(self.authority, self.blocks@, self.container.blocks@, self.blocks@.len() as int,
+                                          self.symbols.strings_view(), self.symbols.public_keys.keys@)
+            }
 
             //@extract biscuit-auth/src/token/unverified.rs :: impl UnverifiedBiscuit :: fn unsafe_deprecated_deserialize
+            //@ ensures inv: r is Ok ==> r->Ok_0.inv()
             //@ sub slice\.as_ref\(\) => crate::verif_std::verif_as_ref(&slice)
             //@ ensures rep: r is Ok ==> r->Ok_0.rep()
             //@end
             //@extract biscuit-auth/src/token/unverified.rs :: impl UnverifiedBiscuit :: fn verify
+            //@ ensures inv: r is Ok && self.inv() ==> r->Ok_0.inv()
             //@ requires rep: self.rep()
             //@ ensures chain: r is Ok ==> key_provider.choose_spec(self.container.root_key_id) is Ok && chain_valid(r->Ok_0.container, key_provider.choose_spec(self.container.root_key_id)->Ok_0, false)
             //@ ensures same: r is Ok ==> r->Ok_0.container == self.container && r->Ok_0.authority == self.authority && r->Ok_0.blocks == self.blocks && r->Ok_0.symbols == self.symbols && r->Ok_0.root_key_id == self.container.root_key_id
@@ -344,10 +372,14 @@ pub mod token {
             //@extract biscuit-auth/src/token/unverified.rs :: impl UnverifiedBiscuit :: fn to_vec
             //@end
             //@extract biscuit-auth/src/token/unverified.rs :: impl UnverifiedBiscuit :: fn from_with_symbols
+            //@ ensures inv: r is Ok ==> r->Ok_0.inv()
+            //@ requires empty: symbols.strings_view().len() == 0 && symbols.public_keys.keys@.len() == 0
             //@ ensures rep: r is Ok ==> r->Ok_0.rep()
             //@ ensures wire: r is Ok ==> schema::wire_decode(slice@) is Some && wire_rel(schema::wire_decode(slice@)->Some_0, r->Ok_0.container, true)
             //@end
             //@extract biscuit-auth/src/token/unverified.rs :: impl UnverifiedBiscuit :: fn append_with_keypair
+            //@ ensures inv: r is Ok && self.inv() ==> r->Ok_0.inv()
+            //@ ghost before_tail :: proof { if self.inv() { lemma_tables_push(self.authority, self.blocks@, self.container.blocks@, deser, last_block(container), container.blocks@, self.symbols.strings_view(), self.symbols.public_keys.keys@, block.symbols.strings_view(), block.public_keys.keys@); assert(block.symbols.public_keys.keys@ =~= Seq::<PublicKey>::empty()); assert(symbols.public_keys.keys@ =~= self.symbols.public_keys.keys@ + block.public_keys.keys@); } }
             //@ requires rep: self.rep()
             //@ requires wf: keypair.wf()
             //@ ensures sealed: self.container.proof is Seal ==> r is Err
@@ -395,6 +427,7 @@ pub mod token {
             //@ closure 1 ensures key: verif_r == ex.public_key
             //@end
             //@extract biscuit-auth/src/token/unverified.rs :: impl UnverifiedBiscuit :: fn seal
+            //@ ensures inv: r is Ok && self.inv() ==> r->Ok_0.inv()
             //@ ensures sealed: self.container.proof is Seal ==> r is Err
             //@ ensures frame: r is Ok ==> r->Ok_0.authority == self.authority && r->Ok_0.blocks == self.blocks && r->Ok_0.symbols == self.symbols
             //@ ensures container: r is Ok ==> r->Ok_0.container.authority == self.container.authority && r->Ok_0.container.blocks@ == self.container.blocks@ && r->Ok_0.container.root_key_id == self.container.root_key_id && r->Ok_0.container.proof is Seal
@@ -405,6 +438,8 @@ pub mod token {
             //@ ensures prev: r is Ok ==> r->Ok_0.previous_signature@ == last_block(self.container).signature.0@
             //@end
             //@extract biscuit-auth/src/token/unverified.rs :: impl UnverifiedBiscuit :: fn append_third_party_with_keypair
+            //@ ensures inv: r is Ok && self.inv() ==> r->Ok_0.inv()
+            //@ ghost before_tail :: proof { if self.inv() { lemma_tables_push(self.authority, self.blocks@, self.container.blocks@, block, last_block(container), container.blocks@, self.symbols.strings_view(), self.symbols.public_keys.keys@, Seq::<String>::empty(), Seq::<PublicKey>::empty()); assert(self.symbols.strings_view() + Seq::<String>::empty() =~= self.symbols.strings_view()); assert(self.symbols.public_keys.keys@ + Seq::<PublicKey>::empty() =~= self.symbols.public_keys.keys@); } }
             //@ requires rep: self.rep()
             //@ requires wf: next_keypair.wf()
             //@ ensures sealed: self.container.proof is Seal ==> r is Err
@@ -469,6 +504,29 @@ pub mod format_ext {
         //@ attr #[verifier::loop_isolation(false)]
         //@ ensures len: r is Ok ==> r->Ok_0.1@.len() == self.blocks@.len()
         //@ ensures decoded: r is Ok ==> schema::block_wire_decode(self.authority.data@) == Some(r->Ok_0.0) && forall|i: int| 0 <= i < self.blocks@.len() ==> schema::block_wire_decode(self.blocks@[i].data@) == Some(#[trigger] r->Ok_0.1@[i])
+        //@ requires empty: old(symbols).strings_view().len() == 0 && old(symbols).public_keys.keys@.len() == 0
+        //@ ensures tables: r is Ok ==> tables_upto(r->Ok_0.0, r->Ok_0.1@, self.blocks@, self.blocks@.len() as int, final(symbols).strings_view(), final(symbols).public_keys.keys@)
+        //@ ghost before "for pk in &authority.public_keys" :: let ghost k0 = symbols.public_keys.keys@; proof { assert(symbols.strings_view() =~= authority.symbols@); assert(k0.len() == 0); }
+        //@ loop 0 ghost it0
+        //@ loop 0 invariant syms: symbols.strings_view() == authority.symbols@
+        //@ loop 0 invariant keys: keys_match(symbols.public_keys.keys@, authority.public_keys@.subrange(0, it0.index@ as int))
+        //@ ghost loop 0 end :: proof { assert(authority.public_keys@.subrange(0, it0.index@ + 1) =~= authority.public_keys@.subrange(0, it0.index@ as int).push(authority.public_keys@[it0.index@ as int])); }
+        //@ ghost after_loop 0 :: proof { assert(authority.public_keys@.subrange(0, authority.public_keys@.len() as int) =~= authority.public_keys@); }
+        //@ loop 1 invariant tables: tables_upto(authority, blocks@, self.blocks@, it.index@ as int, symbols.strings_view(), symbols.public_keys.keys@)
+        //@ ghost loop 1 start :: let ghost s1 = symbols.strings_view(); let ghost k1 = symbols.public_keys.keys@; let ghost b1 = blocks@;
+        //@ ghost before "for pk in &deser.public_keys" :: let ghost k2 = symbols.public_keys.keys@; proof { assert(k2 =~= k1); }
+        //@ loop 2 ghost it2
+        //@ loop 2 invariant syms: symbols.strings_view() == s1 + deser.symbols@
+        //@ loop 2 invariant keys: symbols.public_keys.keys@.len() == k1.len() + it2.index@ && symbols.public_keys.keys@.subrange(0, k1.len() as int) == k1 && keys_match(symbols.public_keys.keys@.subrange(k1.len() as int, symbols.public_keys.keys@.len() as int), deser.public_keys@.subrange(0, it2.index@ as int))
+        //@ ghost loop 1 end :: proof {
+        //@|    lemma_upto_prefix(authority, b1, blocks@, self.blocks@, self.blocks@, it.index@ as int);
+        //@|    if block.external_signature is None {
+        //@|        let kk = symbols.public_keys.keys@;
+        //@|        assert(deser.public_keys@.subrange(0, deser.public_keys@.len() as int) =~= deser.public_keys@);
+        //@|        assert(kk =~= k1 + kk.subrange(k1.len() as int, kk.len() as int));
+        //@|        lemma_keys_match_append(k1, pkeys_upto(authority, b1, self.blocks@, it.index@ as int), kk.subrange(k1.len() as int, kk.len() as int), deser.public_keys@);
+        //@|    }
+        //@| }
         //@ loop 1 ghost it
         //@ loop 1 invariant seq: it.seq().len() == self.blocks@.len() && forall|i: int| 0 <= i < self.blocks@.len() ==> *(#[trigger] it.seq()[i]) == self.blocks@[i]
         //@ loop 1 invariant len: blocks@.len() == it.index@
@@ -489,6 +547,73 @@ pub mod tspec {
         &&& ids.len() == 1 + c.blocks@.len()
         &&& ids[0]@ == c.authority.signature.0@
         &&& forall|i: int| 0 <= i < c.blocks@.len() ==> (#[trigger] ids[i + 1])@ == c.blocks@[i].signature.0@
+    }
+    // ---- the table invariant (C12): what a verifier reconstructs from the container ----
+    use crate::format::schema;
+    use crate::spec::pk_proto_rel;
+    // symbols declared by the authority block and by the first n blocks, third-party blocks skipped
+    pub open spec fn syms_upto(auth: schema::Block, blocks: Seq<schema::Block>, cblocks: Seq<Block>, n: int) -> Seq<String>
+        decreases n
+    {
+        if n <= 0 { auth.symbols@ }
+        else { syms_upto(auth, blocks, cblocks, n - 1) + (if cblocks[n - 1].external_signature is None { blocks[n - 1].symbols@ } else { Seq::<String>::empty() }) }
+    }
+    pub open spec fn pkeys_upto(auth: schema::Block, blocks: Seq<schema::Block>, cblocks: Seq<Block>, n: int) -> Seq<schema::PublicKey>
+        decreases n
+    {
+        if n <= 0 { auth.public_keys@ }
+        else { pkeys_upto(auth, blocks, cblocks, n - 1) + (if cblocks[n - 1].external_signature is None { blocks[n - 1].public_keys@ } else { Seq::<schema::PublicKey>::empty() }) }
+    }
+    pub open spec fn keys_match(ks: Seq<PublicKey>, ps: Seq<schema::PublicKey>) -> bool {
+        ks.len() == ps.len() && forall|i: int| 0 <= i < ps.len() ==> pk_proto_rel(#[trigger] ps[i], ks[i])
+    }
+    // the token tables are exactly the ones a verifier reconstructs from the first n blocks
+    pub open spec fn tables_upto(auth: schema::Block, blocks: Seq<schema::Block>, cblocks: Seq<Block>, n: int, syms: Seq<String>, keys: Seq<PublicKey>) -> bool {
+        syms == syms_upto(auth, blocks, cblocks, n) && keys_match(keys, pkeys_upto(auth, blocks, cblocks, n))
+    }
+    pub proof fn lemma_upto_prefix(auth: schema::Block, b1: Seq<schema::Block>, b2: Seq<schema::Block>, c1: Seq<Block>, c2: Seq<Block>, n: int)
+        requires n <= b1.len(), n <= b2.len(), n <= c1.len(), n <= c2.len(),
+                 forall|i: int| 0 <= i < n ==> b1[i] == b2[i] && c1[i].external_signature == c2[i].external_signature,
+        ensures syms_upto(auth, b1, c1, n) == syms_upto(auth, b2, c2, n), pkeys_upto(auth, b1, c1, n) == pkeys_upto(auth, b2, c2, n),
+        decreases n
+    {
+        if n > 0 { lemma_upto_prefix(auth, b1, b2, c1, c2, n - 1); }
+    }
+    pub proof fn lemma_keys_match_append(k1: Seq<PublicKey>, p1: Seq<schema::PublicKey>, k2: Seq<PublicKey>, p2: Seq<schema::PublicKey>)
+        requires keys_match(k1, p1), keys_match(k2, p2)
+        ensures keys_match(k1 + k2, p1 + p2)
+    {
+        assert forall|i: int| 0 <= i < (p1 + p2).len() implies pk_proto_rel(#[trigger] (p1 + p2)[i], (k1 + k2)[i]) by {
+            if i < p1.len() { assert((p1 + p2)[i] == p1[i]); assert((k1 + k2)[i] == k1[i]); }
+            else { assert((p1 + p2)[i] == p2[i - p1.len()]); assert((k1 + k2)[i] == k2[i - k1.len()]); }
+        }
+    }
+    // ASSUMED contract of format::convert::token_block_to_proto_block (iterator / collect code): the wire block
+    // carries exactly the block's own symbols and the encodings of its own public keys
+    pub broadcast axiom fn proto_of_tables(b: crate::token::Block)
+        ensures (#[trigger] crate::format::convert::proto_of(b)).symbols@ == b.symbols.strings_view(),
+                keys_match(b.public_keys.keys@, crate::format::convert::proto_of(b).public_keys@);
+    // appending block `d` (container block `nb`) to a token whose tables satisfy the invariant
+    pub proof fn lemma_tables_push(auth: schema::Block, blocks: Seq<schema::Block>, cblocks: Seq<Block>, d: schema::Block, nb: Block,
+                                   cblocks2: Seq<Block>, syms: Seq<String>, keys: Seq<PublicKey>, nsyms: Seq<String>, nkeys: Seq<PublicKey>)
+        requires blocks.len() == cblocks.len(), cblocks2.len() == cblocks.len() + 1, cblocks2.subrange(0, cblocks.len() as int) == cblocks, cblocks2[cblocks.len() as int] == nb,
+                 tables_upto(auth, blocks, cblocks, blocks.len() as int, syms, keys),
+                 nb.external_signature is None ==> nsyms == d.symbols@ && keys_match(nkeys, d.public_keys@),
+                 nb.external_signature is Some ==> nsyms.len() == 0 && nkeys.len() == 0,
+        ensures tables_upto(auth, blocks.push(d), cblocks2, blocks.len() as int + 1, syms + nsyms, keys + nkeys)
+    {
+        let n = blocks.len() as int;
+        assert forall|i: int| 0 <= i < n implies blocks[i] == blocks.push(d)[i] && cblocks[i].external_signature == cblocks2[i].external_signature by {
+            assert(cblocks2.subrange(0, n)[i] == cblocks2[i]);
+        }
+        lemma_upto_prefix(auth, blocks, blocks.push(d), cblocks, cblocks2, n);
+        if nb.external_signature is None {
+            lemma_keys_match_append(keys, pkeys_upto(auth, blocks, cblocks, n), nkeys, d.public_keys@);
+        } else {
+            assert(syms + nsyms =~= syms); assert(keys + nkeys =~= keys);
+            assert(pkeys_upto(auth, blocks.push(d), cblocks2, n + 1) =~= pkeys_upto(auth, blocks.push(d), cblocks2, n));
+            assert(syms_upto(auth, blocks.push(d), cblocks2, n + 1) =~= syms_upto(auth, blocks.push(d), cblocks2, n));
+        }
     }
     pub open spec fn external_keys_of(c: SerializedBiscuit, ks: Seq<Option<PublicKey>>) -> bool {
         &&& ks.len() == 1 + c.blocks@.len()
@@ -511,3 +636,7 @@ pub mod tspec {
 //@canary-requires token::unverified::UnverifiedBiscuit::verify
 //@canary default-symbol-index :: datalog::symbol::SymbolTable::get_symbol :: DEFAULT_SYMBOLS.get(i as usize).copied() ==>> Some(DEFAULT_SYMBOLS[i as usize])
 //@canary user-symbol-offset :: datalog::symbol::SymbolTable::get_symbol :: if i >= OFFSET as u64 { ==>> if i >= 28 {
+//@canary tables-third-party-skipped :: format::SerializedBiscuit::extract_blocks :: if let Some(external_signature) = &block.external_signature { ==>> if false { let external_signature = block.external_signature.as_ref().unwrap();
+//@canary tables-keys-not-extended :: token::Biscuit::append_with_keypair :: symbols.public_keys.extend(&block.public_keys)?; ==>>
+//@canary tables-unverified-keys-not-extended :: token::unverified::UnverifiedBiscuit::append_with_keypair :: symbols.public_keys.extend(&block.public_keys)?; ==>>
+//@canary tables-authority-keys :: format::SerializedBiscuit::extract_blocks :: for pk in &authority.public_keys { ==>> for pk in &authority.public_keys[0..0] {
